@@ -17,7 +17,7 @@ RULE = ("MODE SELECT 6/10 x 4 pages x every field over its alphabet (k deviation
         "values x 1-2 pages per list; PERSISTENT RESERVE OUT x service actions 0-8 x 64-bit key alphabets x flag products x 0-3 TransportIDs of 6 "
         "kinds x iSCSI name lengths 1..26 x format 00b/01b, REGISTER AND MOVE with/without TransportID; EXTENDED COPY LID1 and LID4 x header "
         "fields x 0-3 identification CSCD descriptors (NAA 5/6, EUI-64 8/12/16, T10 vendor id; block/tape/processor device types) x 0-3 segment "
-        "descriptors of each implemented type {00,01,02,0B,0C,0D} x inline data {0,1,5 bytes}; one caller dictionary re-used for two commands of every ordered pair of segment kinds. Non-trivial = any non-default value or "
+        "descriptors of each implemented type {00,01,02,0B,0C,0D} x inline data {0,1,5 bytes}; one caller dictionary re-used for two commands of every ordered pair of segment kinds; every list is built a second time from the same values presented differently (reversed key order in every dictionary, int-subclass integers, bytes<->bytearray) and must come out identical; and once with every list given as a one-shot iterator (refusal accepted, a silently different list is not). Non-trivial = any non-default value or "
         "descriptor; distinct = distinct (command, dictionary).")
 ASSUMPTIONS = [
     "oracle: vf/spec/paramlists.py decoders (positions of SPC-4 6.3/6.14/7.5/7.6.4) over vf/spec/bits.py",
@@ -45,6 +45,61 @@ def pll_check(name, cmd, where):
 
 
 # ---------------------------------------------------------------------------------------------------------
+class _I(int):
+    """an int subclass (IntEnum members and the like)"""
+
+
+def represent(x):
+    """the same parameter values presented differently: dictionaries filled in the opposite key order, integers as instances of an
+    int subclass (bool for 0/1), bytes <-> bytearray.  The list the library builds must not depend on any of this."""
+    if isinstance(x, dict):
+        return {k: represent(v) for k, v in reversed(list(x.items()))}
+    if isinstance(x, list):
+        return [represent(v) for v in x]
+    if type(x) is int:
+        return bool(x) if x in (0, 1) else _I(x)
+    if type(x) is bytes:
+        return bytearray(x)
+    if type(x) is bytearray:
+        return bytes(x)
+    return x
+
+
+def iterize(x):
+    """lists handed over as one-shot iterators (a generator expression, map(...), iter(list))"""
+    if isinstance(x, dict):
+        return {k: iterize(v) for k, v in x.items()}
+    if isinstance(x, list):
+        return iter([iterize(v) for v in x])
+    return x
+
+
+def same_list_iter(build, buf, tag, where):
+    """where the library accepts an iterable in place of a list at all (it does for TransportID lists), it must see every element:
+    a refusal (TypeError for len() of an iterator, ...) is not judged, a silently different list is"""
+    try:
+        b2 = bytes(build().dataout)
+    except Exception:   # noqa: BLE001
+        return []
+    if b2 != buf:
+        return [("%s/iterable_argument" % tag, "%s: with the descriptor lists given as one-shot iterators the library builds another list without complaint (%d bytes instead of %d)"
+                 % (where, len(b2), len(buf)))]
+    return []
+
+
+def same_list_again(build, buf, cdb, tag, where):
+    try:
+        c2 = build()
+        b2, c2 = bytes(c2.dataout), bytes(c2.cdb)
+    except Exception as e:   # noqa: BLE001
+        return [("%s/representation" % tag, "%s: the same values with reversed key order / int subclasses / bytes<->bytearray raised %s: %s" % (where, type(e).__name__, e))]
+    if b2 != buf or c2 != cdb:
+        i = next((i for i in range(min(len(buf), len(b2))) if buf[i] != b2[i]), min(len(buf), len(b2)))
+        return [("%s/representation" % tag, "%s: the same values with reversed key order / int subclasses / bytes<->bytearray give another list (first difference at byte %d: %s vs %s)"
+                 % (where, i, b2[max(0, i - 2):i + 6].hex(), buf[max(0, i - 2):i + 6].hex()))]
+    return []
+
+
 def run_case(case, obs=None):
     kind = case[0]
     out = []
@@ -86,6 +141,9 @@ def run_case(case, obs=None):
         c = S.decode(name, bytes(cmd.cdb))
         if c["pf"] != pf or c["sp"] != sp:
             out.append(("%s/cdb_flags" % name, "%s: CDB pf/sp %r/%r" % (where, c["pf"], c["sp"])))
+        if not out:
+            out += same_list_again(lambda: CS.get_class(name)(opcode_of(name), represent(data), pf=represent(pf), sp=represent(sp)), buf, bytes(cmd.cdb), name, where)
+            out += same_list_iter(lambda: CS.get_class(name)(opcode_of(name), iterize(data), pf=pf, sp=sp), buf, name, where)
         return out + pll_check(name, cmd, where)
     if kind == "prout":
         _, sa, items, tid_idx = case
@@ -132,6 +190,15 @@ def run_case(case, obs=None):
                         v = v or 0
                     if gv != v:
                         out.append(("prout/transportid/p%d/%s" % (w["protocol_id"], k), "%s: TransportID %s=%r in the list, supplied %r" % (where, k, gv, v)))
+        if not out:
+            kw2 = dict(items)
+            if sa == 7:
+                if tids:
+                    kw2["transport_id"] = copy.deepcopy(tids[0])
+            elif kw2.get("spec_i_pt"):
+                kw2["transport_ids"] = copy.deepcopy(tids)
+            out += same_list_again(lambda: CS.get_class(name)(opcode_of(name), sa, 0, 1, **represent(kw2)), buf, bytes(cmd.cdb), "prout", where)
+            out += same_list_iter(lambda: CS.get_class(name)(opcode_of(name), sa, 0, 1, **iterize(kw2)), buf, "prout", where)
         return out + pll_check(name, cmd, where)
     if kind == "xcopy":
         _, ver, hdr, cscd_idx, seg_idx, inline_n = case
@@ -180,6 +247,13 @@ def run_case(case, obs=None):
         d = S.decode(name, bytes(cmd.cdb))
         if d["service_action"] != (0 if ver == 4 else 1):
             out.append(("xcopy%d/service_action" % ver, "%s: service action %d" % (where, d["service_action"])))
+        if not out:
+            kw2 = dict(hdr)
+            kw2["target_descriptor_list" if ver == 4 else "cscd_descriptor_list"] = copy.deepcopy([c[0] for c in cscds])
+            kw2["segment_descriptor_list"] = copy.deepcopy([s_[0] for s_ in segs])
+            kw2["inline_data"] = bytearray(inline)
+            out += same_list_again(lambda: CS.get_class(name)(opcode_of(name), **represent(kw2)), buf, bytes(cmd.cdb), "xcopy%d" % ver, where)
+            out += same_list_iter(lambda: CS.get_class(name)(opcode_of(name), **iterize(kw2)), buf, "xcopy%d" % ver, where)
         return out + pll_check(name, cmd, where)
     if kind == "xreuse":
         # the caller re-uses one segment dictionary for two commands of different descriptor kinds
